@@ -224,7 +224,8 @@ package kvql
 //@ define limit2(p *Parser, b Int) Bool = isNumTok(p, b) && isSepTok(p, b + 1) && isNumTok(p, b + 2) && isEndTok(p, b + 3)
 //
 //@ func (p *Parser) parseLimit() (ret *LimitStmt, err error)
-//@   props C08
+//@   props C08 C17
+//@   ensures[C17] errpos: errAtToken(p, err)
 //@   requires wfParser(p) && p.tok != nil && p.tok.Tp == LIMIT
 //@   assigns p.tok, p.pos
 //@   ensures[C08] one: limit1(p, old(p.pos)) ==> err == nil && ret != nil && ret.Start == 0 && ret.Count == tokNum(p, old(p.pos))
